@@ -1,4 +1,4 @@
-use super::allocator::{BlockAllocator, FileStateTracker};
+use super::allocator::{BlockAllocator, BlockStateTracker, FileStateTracker};
 use super::reader::Reader;
 use crate::wal::block::{Block, metadata_fits};
 #[cfg(target_os = "linux")]
@@ -85,7 +85,7 @@ impl Writer {
             let mut sealed = block.clone();
             sealed.used = *cur;
             sealed.mmap.flush()?;
-            let _ = self.reader.append_block_to_chain(&self.col, sealed);
+            self.hand_over_sealed_block(sealed);
             debug_print!("[writer] appended sealed block to chain: col={}", self.col);
             // switch to new block
             // SAFETY: We hold `current_block` and `current_offset` mutexes, so
@@ -260,7 +260,7 @@ impl Writer {
                     0
                 };
                 revert_info.sealed_blocks.push((sealed.id, valid_before));
-                let _ = self.reader.append_block_to_chain(&self.col, sealed);
+                self.hand_over_sealed_block(sealed);
 
                 // Allocate new block
                 // SAFETY: We hold locks, so this writer has exclusive ownership
@@ -592,6 +592,18 @@ struct BatchRevertInfo {
 }
 
 impl Writer {
+    /// A sealed block joins the topic's read chain - unless nothing was ever written into it (the
+    /// first entry of the topic, or of the block, needed a larger block). Recovery cannot attribute
+    /// a block without entries to any topic, so keeping it in the chain would shift every persisted
+    /// chain position by one after a restart; it is accounted as consumed instead.
+    fn hand_over_sealed_block(&self, sealed: Block) {
+        if sealed.used == 0 {
+            BlockStateTracker::set_checkpointed_true(&sealed.file_path, sealed.id as usize);
+        } else {
+            let _ = self.reader.append_block_to_chain(&self.col, sealed);
+        }
+    }
+
     /// Roll back a failed batch that sealed blocks on its way: the sealed blocks keep only what
     /// they held before the batch, and the writer continues at the start of the block it moved
     /// to (or at the original offset if it never left its block).
